@@ -1269,7 +1269,14 @@ class Exec:
         if k == 'CharacterLiteral':
             return chr(n['value'])
         if k == 'StringLiteral':
-            return n.get('value', '""').strip('"')
+            v = n.get('value', '""')
+            v = v[1:-1] if len(v) >= 2 and v[0] == '"' and v[-1] == '"' else v.strip('"')
+            if '\\' in v:
+                try:
+                    v = bytes(v, 'utf-8').decode('unicode_escape')       # clang prints the source spelling: decode the C escapes
+                except Exception:
+                    pass
+            return v
         if k == 'CXXNullPtrLiteralExpr' or k == 'GNUNullExpr':
             return None
         if k == 'CXXDefaultArgExpr':
@@ -1374,6 +1381,11 @@ class Exec:
         if not isinstance(l, Ref):
             if isinstance(l, Mx) and isinstance(r, Mx):
                 l.assign(r)
+                return
+            if isinstance(l, Mx) and l.arr and isinstance(r, (D, int, float)) and not isinstance(r, bool):
+                for i in range(l.r):          # array = scalar: every coefficient
+                    for j in range(l.c):
+                        l.p(i, j, D.lift(r))
                 return
             raise Unsupported('assignment to non-lvalue')
         cur = None
